@@ -58,6 +58,10 @@ pub struct Cfg {
     /// 2 = config(PoolConfig { queue_mode, .. }), max_size; 3 = max_size, config(PoolConfig { max_size, queue_mode, .. })
     #[serde(default)]
     pub build_order: u8,
+    /// a task whose get() panics drops the objects it holds while the panic unwinds (as a panicking tokio
+    /// task does): they go back to the pool from inside the unwinding
+    #[serde(default)]
+    pub unwind_drops: bool,
 }
 fn yes() -> bool {
     true
@@ -777,6 +781,37 @@ fn sync_done(c: &TaskCtx, r: Result<OpResult, Box<dyn std::any::Any + Send>>) {
 }
 
 /// poll the get() future once and report what happened
+/// The caller's stack frame, as far as the pool is concerned: the objects the task holds.  When a panic
+/// unwinds it they are dropped one after the other (lowest id first), each going through `Object::drop`.
+struct CallerFrame<'a> {
+    held: &'a Mutex<BTreeMap<u32, Object<Mgr>>>,
+    enabled: bool,
+    truth: Option<&'a TruthRef>,
+}
+impl Drop for CallerFrame<'_> {
+    fn drop(&mut self) {
+        if self.enabled && std::thread::panicking() {
+            loop {
+                let next = self.held.lock().unwrap().pop_first();
+                match next {
+                    // (a panic of the pool in here must not leave this destructor: that would abort the process)
+                    Some((_, o)) => {
+                        if let Err(p) = catch_unwind(AssertUnwindSafe(move || drop(o))) {
+                            let m = panic_msg(p);
+                            if m != INJECTED {
+                                if let Some(t) = self.truth {
+                                    t.lock().unwrap().unexpected.push(m);
+                                }
+                            }
+                        }
+                    }
+                    None => break,
+                }
+            }
+        }
+    }
+}
+
 fn drive(c: &TaskCtx, sh: &Shared, fut: &mut Option<GetFut>, waker: &Waker) {
     let Some(f) = fut.as_mut() else {
         c.report(Report::Done(OpResult::Unit));
@@ -786,7 +821,11 @@ fn drive(c: &TaskCtx, sh: &Shared, fut: &mut Option<GetFut>, waker: &Waker) {
     // a gate that is still pending re-registers itself during this poll
     c.at_gate.set(None);
     let mut cx = Context::from_waker(waker);
-    let r = catch_unwind(AssertUnwindSafe(|| f.as_mut().poll(&mut cx)));
+    let r = catch_unwind(AssertUnwindSafe(|| {
+        // (declared before the poll: dropped after the frames of the poll have been unwound)
+        let _frame = CallerFrame { held: &sh.held[c.ix], enabled: sh.cfg.unwind_drops, truth: Some(&sh.truth) };
+        f.as_mut().poll(&mut cx)
+    }));
     match r {
         Ok(Poll::Pending) => c.report(Report::Pending { gate: c.at_gate.get() }),
         Ok(Poll::Ready(res)) => {
